@@ -28,15 +28,15 @@ type ConcCase struct {
 // HEvent is one completed operation of the history. Call and Ret are global scheduler event
 // numbers (never simulated time), so no two operations tie.
 type HEvent struct {
-	Client int
-	Op     Op
-	Call   uint64
-	Ret    uint64
-	Class  string // error class ("" = nil)
-	ValID  uint64 // for reads: id of the write whose complete content was returned (0: none)
+	Client  int
+	Op      Op
+	Call    uint64
+	Ret     uint64
+	Class   string // error class ("" = nil)
+	ValID   uint64 // for reads: id of the write whose complete content was returned (0: none)
 	Foreign string // for reads: description of a content that is no complete written value
-	Keys   []string
-	Err    string
+	Keys    []string
+	Err     string
 }
 
 type concRun struct {
